@@ -75,6 +75,80 @@ def props_create(rep):
     # the per-file attributes are a superset: checked on every file of every path by the write-path harness ('19 documented attributes')
 
 
+REPLAY_INIT = '''
+from vlib import build, refmodel
+import ctypes, tempfile, os, shutil, sys
+bad = 0
+for (n, d, start) in %r:
+    top = tempfile.mkdtemp(); ch = os.path.join(top, 'ch'); os.makedirs(ch)
+    rw = refmodel.RealWriter(build, ch, n, d, 3600, 1000, start, 0)
+    if not rw.obj: print('constructor refused', (n, d, start)); shutil.rmtree(top); continue
+    rw.lib.verif_peek_init_utc_timestamp.restype = ctypes.c_uint64; rw.lib.verif_peek_init_utc_timestamp.argtypes = [ctypes.c_void_p]
+    got = int(rw.lib.verif_peek_init_utc_timestamp(rw.obj)); want = start * d // n
+    rw.close(); shutil.rmtree(top)
+    print('rate %%d/%%d start index %%d: init_utc_timestamp %%d, exact second of the first sample %%d' %% (n, d, start, got, want))
+    if got != want: bad = 1
+sys.exit(1 if bad else 0)
+'''
+
+
+def ctor_init_timestamp(rep, st, tier):
+    """digital_rf_create_write_hdf5: the session start timestamp stored in every data file == floor(start_index * d / n), decided per rate with
+    the x87 80-bit operations of the constructor modelled exactly (one RNE step per division, binade by forking)"""
+    from vlib import rates
+    from vlib.llsym import M as MASK
+    mod = Module(build.c_ir()); stubs = envstubs.mk_stubs()
+    rate_list = [r_ for r_ in (rates.QUICK_RATES if tier == 'quick' else rates.QUICK_RATES + [(8000, 1), (10**7, 3), (100, 3), (2**32 - 1, 4294967)])]
+    t0 = time.time(); npaths = 0; nq = 0; bad = []; unknown = []
+    for (n, d) in rate_list:
+        start = z3.Int('start')
+        res = []
+
+        def setup(ex, n=n, d=d):
+            ex.fp_exact = True
+            kmax = min(2**63 - 1, (253402300800 * n) // d)            # before year 9999
+            ex.assume(z3.And(start >= 0, start <= kmax))
+            dr = ex.new_region('dir'); ex.mem[dr]['cells'][()] = SymStr([wobj.CHDIR])
+            uu = ex.new_region('uuid'); ex.mem[uu]['cells'][()] = SymStr(['UUID'])
+            def hmd(e, o):
+                e.user['obj_at_md'] = o; return 0
+            ex.summaries['@digital_rf_check_hdf5_directory'] = lambda e, p_: 0
+            ex.summaries['@digital_rf_set_fill_value'] = lambda e, o: 0
+            ex.summaries['@digital_rf_handle_metadata'] = hmd
+            ex.summaries['@digital_rf_close_write_hdf5'] = lambda e, o: 0
+            return [Ptr(dr, (0,)), 7001, 3600, 1000, start, n, d, Ptr(uu, (0,)), 0, 0, 0, 1, 0, 0]
+
+        def on_path(ex, status, ret, n=n, d=d):
+            if status != 'ret' or not isinstance(ret, Ptr) or ret.region is None or 'obj_at_md' not in ex.user: return
+            o = WObj(ex, ex.user['obj_at_md'])
+            v = o.get('init_utc_timestamp')
+            if v is None or isinstance(v, (Ptr, SymStr)) or not (isinstance(v, int) or z3.is_expr(v)):
+                res.append(('unknown', None)); return
+            claim = v == (start * d) / n
+            if ex.valid(claim): res.append(('ok', None))
+            else:
+                m = ex.model(z3.Not(claim))
+                res.append(('bad', smt.mval(m, start) if m is not None else None))
+
+        ex = Exec(mod, stubs, {}, timeout_ms=4000, fallback_ms=60000)
+        try:
+            npaths += ex.explore('@digital_rf_create_write_hdf5', setup, on_path)
+        except Inconclusive as e:
+            unknown.append('%d/%d: %s' % (n, d, str(e)[:80])); continue
+        nq += ex.nq
+        if not res or any(r_[0] == 'unknown' for r_ in res): unknown.append('%d/%d' % (n, d))
+        bad += [(n, d, r_[1]) for r_ in res if r_[0] == 'bad' and r_[1] is not None]
+    title = 'constructor: the session start timestamp (init_utc_timestamp, stored in every data file) == floor(start index * d / n)'
+    bounds = '%d rates x every start index with time before year 9999' % len(rate_list)
+    if bad:
+        rep.violation(title, 'C06.init_utc_timestamp', 'differs at (n, d, start) = %s' % (bad[:3],), replay_body=REPLAY_INIT % (bad[:6],), queries=nq, solver_s=time.time() - t0,
+                      paths=npaths, bounds=bounds, sample={'cases': bad[:6]})
+    elif unknown:
+        rep.ob(title, 'inconclusive', bounds, nq, time.time() - t0, npaths, detail='not decided for ' + ', '.join(unknown[:6]))
+    else:
+        rep.ob(title, 'discharged', bounds, nq, time.time() - t0, npaths, sample={'rates': rate_list[:6]})
+
+
 def main(tier):
     rep = common.Report('C06', tier, 'model_checking', functions=FUNCS)
     st = smt.Stats()
@@ -93,6 +167,7 @@ def main(tier):
     rep.extra['write_path'] = dict(configurations=len(specs), paths=tot['paths'], queries=tot['q'], solver_s=round(tot['s'], 1), wall_s=round(time.time() - t0, 1))
     rep.ob('write path explored', 'witness', '%d configurations' % len(specs), tot['q'], tot['s'], tot['paths'])
     props_create(rep)
+    ctor_init_timestamp(rep, st, tier)
     n, bad = wrun.replay_witnesses(results, specs, limit=15)
     if bad:
         nm, cfgd, hist, d = bad[0]
